@@ -13,12 +13,12 @@ Open Scope list_scope.
 
 (* The unguarded statement
      forall pre5 ops, c05_ok ops (model_obs pre5 empty_coll ops) = true
-   is FALSE (Refuted/C05.v).  The guard c05_reasons (Spec/HistGuards.v) excludes: 1 a
-   successful insert_one whose explicit _id the datetime normalisation changes (inserted_id is
-   the normalised _id, the predicate wants the _id as given); 2 an _id that is not a
-   well-formed value; 4 F-ID-RETYPE; 8 F-ID-BOOL-NUM; 16 a TTL index.  (After the repair of the
-   library the former class "store key not stable under patch" of bit 1 and the whole bit 32
-   are no longer assumed: see C05_keys_normalised below.)  Inside the guard it holds: after every operation of the model's
+   is FALSE (Refuted/C05.v).  The guard c05_reasons (Spec/HistGuards.v) excludes: 2 an _id
+   that is not a well-formed value; 4 F-ID-RETYPE; 8 F-ID-BOOL-NUM; 16 a TTL index.  (Bit 1 is
+   gone: after the repair of the library the class "store key not stable under patch" is no
+   longer assumed - see C05_keys_normalised below - and the predicate now compares inserted_id
+   with the normalised _id, which is what a successful insert_one reports.  The whole bit 32
+   is gone as well.)  Inside the guard it holds: after every operation of the model's
    own trace the store keys are pairwise BSON-different and every document carries the _id it
    is stored under; insert_one generates a fresh _id / rejects a present one with
    DuplicateKeyError leaving the store untouched; update, replace and find_one_and_update/
@@ -34,7 +34,7 @@ Print Assumptions C05_history.
    creates no TTL index): the store keys stay pairwise different under Python ==, and every
    stored document has an _id linked to the key it is stored under by a chain of Python ==
    (k == k0, the _id started as patch k0 and was only ever rewritten by ==-equal values).
-   "_id is immutable" holds in the library exactly up to Python ==; the bits 1, 4, 8 of the
+   "_id is immutable" holds in the library exactly up to Python ==; the bits 4, 8 of the
    guard above are the ways == differs from BSON equality. *)
 Theorem C05_state_invariant : forall (pre5 : bool) (ops : list op),
   forallb ttl_free ops = true ->
@@ -67,6 +67,8 @@ Definition c05_demo : list op :=
     OInsertOne (VDoc [("_id", VDate 5000 None); ("x", VInt 20)]);        (* datetime _id *)
     OInsertOne (VDoc [("_id", VDate 5001 None); ("x", VInt 21)]);        (* same millisecond: duplicate *)
     OInsertOne (VDoc [("_id", VDate 5000 (Some 0)); ("x", VInt 22)]);    (* same instant, aware: duplicate *)
+    OInsertOne (VDoc [("_id", VDate 7001 None); ("x", VInt 23)]);        (* sub-millisecond: stored and reported as 7000 *)
+    OInsertOne (VDoc [("_id", VDate 8000 (Some 60)); ("x", VInt 24)]);   (* aware: stored and reported as the naive instant *)
     OCreateIndex [("x", VInt 1)] true true None None None;  (* unique, sparse *)
     OInsertOne (VDoc [("_id", VInt 7); ("x", VInt 5)]);                  (* unique index: rolled back *)
     OInsertMany [VDoc [("_id", VStr "a")]; VDoc [("_id", VStr "a")]; VDoc [("y", VInt 1)]] false;
@@ -94,5 +96,5 @@ Example C05_history_demo :
   c05_reasons c05_demo (model_obs false empty_coll c05_demo) = 0 /\
   modelled false empty_coll c05_demo = true /\
   c05_ok c05_demo (model_obs false empty_coll c05_demo) = true /\
-  List.length (List.filter (fun ob => is_ok (fst (fst ob))) (model_obs false empty_coll c05_demo)) = 23%nat.
+  List.length (List.filter (fun ob => is_ok (fst (fst ob))) (model_obs false empty_coll c05_demo)) = 25%nat.
 Proof. vm_compute. repeat split; reflexivity. Qed.
